@@ -287,3 +287,71 @@ def switch_discr_sources(body, sb):
             if d[0] == "s" and d[3][0] == "discr":
                 dtys.append(d[3][2])
     return [c for _, c in calls], dtys
+
+
+PANIC_RE = re.compile(r"core::panicking::|std::rt::begin_panic|assert_failed|::panic_fmt|unwrap_failed|expect_failed|panic_display|panic_explicit")
+
+
+def reject_blocks(body):
+    """blocks that reject: build Err into _0, `?`-propagate, or call a panic entry point"""
+    out = set(err_exits(body))
+    for bb, t in body.calls():
+        if PANIC_RE.search(callee(t) or ""):
+            out.add(bb)
+    return out
+
+
+def origin_locals(body, local):
+    """`local` plus the locals it is a plain move/copy of"""
+    orig = {local}
+    ch = True
+    while ch:
+        ch = False
+        for x in list(orig):
+            for d in body.defs().get(x, []):
+                if d[0] == "s" and d[3][0] == "use" and d[3][1][0] in ("c", "m") and not d[3][1][1][1] and d[3][1][1][0] not in orig:
+                    orig.add(d[3][1][1][0])
+                    ch = True
+    return orig
+
+
+def value_is_checked(body, local, rej=None):
+    """does the value in `local` (forward taint, through calls) reach the discriminant of a switch on
+    which some rejecting block is control dependent, or the condition of an assert?"""
+    rej = reject_blocks(body) if rej is None else rej
+    tainted = body.taint(origin_locals(body, local))
+    for sb in range(body.n):
+        t = body.term(sb)
+        if t["k"] == "assert" and any(x in tainted for x in operand_locals(t["cond"])):
+            return True
+        if t["k"] == "switch" and any(x in tainted for x in operand_locals(t["d"])):
+            for tgt in body.succ(sb):
+                r = body.reachable(0, removed_edges=[(sb, tgt)])
+                if any(x not in r for x in rej):
+                    return True
+    return False
+
+
+def result_constructions(body, self_base, F=None):
+    """sites where the function builds its result: struct literals of `self_base` and calls to unsafe
+    *unchecked* constructors.  yields (block, kind, [(role, operand)])"""
+    adt = None
+    if F is not None:
+        try:
+            adt = F.adt(self_base)
+        except Exception:
+            adt = None
+    for bl in range(body.n):
+        for s in body.stmts(bl):
+            if s[0] == "a" and s[2][0] == "agg" and s[2][1][0] == "adt" and s[2][1][1] == self_base:
+                ops = s[2][2]
+                roles = []
+                if adt:
+                    fields = adt["variants"][s[2][1][2]]["fields"] if s[2][1][2] < len(adt["variants"]) else []
+                    roles = [f["name"] for f in fields]
+                if len(roles) != len(ops):
+                    roles = ["#%d" % i for i in range(len(ops))]
+                yield bl, "literal", list(zip(roles, ops))
+        t = body.term(bl)
+        if t["k"] == "call" and (t.get("f") or {}).get("unsafe") and re.search(r"unchecked", (callee(t) or "").split("::")[-1]):
+            yield bl, (callee(t) or "").split("::")[-1], [("arg%d" % i, a) for i, a in enumerate(t["args"])]
